@@ -382,7 +382,8 @@ def load_programs(out_path: str, cap: int | None, seed: int):
         strata = {}
         for l in progs:
             P = json.loads(json.loads(l))
-            key = tuple(sorted(n["op"] + ("*" if n["attr"] else "") for n in P["g"][0]["nodes"]))
+            # (operator with its attribute values: Constant:const=k1 and Constant:const=k2 are different members)
+            key = tuple(sorted(n["op"] + ":" + ",".join(f"{a[0]}={a[1]}" for a in n["attr"]) for n in P["g"][0]["nodes"]))
             strata.setdefault(key, []).append(l)
         picked, depth = [], 0
         keys = sorted(strata)
